@@ -289,6 +289,10 @@ func (s *Service) UpdateSyncCommitteeDataRecord(
 	s.slotDataRecordsMu.Lock()
 	s.slotDataRecords[slot] = synccommitteemessenger.SlotData{Root: root, ValidatorToCommitteeIndex: validatorToCommitteeIndex}
 	s.slotDataRecordsMu.Unlock()
+
+	// The records are also housekept by the controller when it verifies inclusion on a head event,
+	// but that does not happen if verification is disabled or head events are missing.
+	s.RemoveHistoricDataUsedForSlotVerification(slot)
 }
 
 // GetDataUsedForSlot returns slot data recorded for the sync committee message for a given slot.
